@@ -40,13 +40,17 @@ fn rerun(w: &Value) -> Option<Outcome> {
         "c12_lex" => Some(c12::run_lex(w["input"]["text"].as_str()?)),
         "c20_u8" => Some(c20::run_u8(w["input"]["kind"].as_str()?, w["input"]["n"].as_u64()? as usize)),
         "c03_expect" => Some(c03::run(w["input"]["body"].as_str()?, w["input"]["expect"].as_u64().map(|x| x as usize), w["input"]["expectrr"].as_u64().map(|x| x as usize))),
+        "c10_order" => { let d: Vec<String> = w["input"]["decls"].as_array()?.iter().filter_map(|x| x.as_str().map(|y| y.to_string())).collect(); let pm: Vec<usize> = w["input"]["perm"].as_array()?.iter().filter_map(|x| x.as_u64().map(|y| y as usize)).collect(); Some(c10::run_order(&d, w["input"]["body"].as_str()?, &pm)) }
         "c10_api" => Some(c10::run(w["input"]["kind"].as_str()?, w["input"]["grammar"].as_str()?)),
+        "c15_codegen" => Some(c15::run_codegen(w["input"]["grammar"].as_str()?, 12)),
+        "c15_tables" => Some(c15::run_tables(w["input"]["grammar"].as_str()?, 40)),
         "c15_numbering" => Some(c15::run(w["input"]["grammar"].as_str()?, 200)),
         "c11_gen" => Some(c11::run_gen(w["input"]["seed"].as_u64()?)),
         "c11_spans" => Some(c11::run(w["input"]["source"].as_str()?)),
         "c08_span" => Some(c08::run(w["input"]["grammar"].as_str()?, w["input"]["input"].as_str()?)),
         "c17_sets" => Some(c17::run(w["input"]["grammar"].as_str()?, w["input"]["what"].as_str()?)),
         "c16_table" => Some(c16::run(w["input"]["grammar"].as_str()?)),
+        "c19_wrap" => Some(c19::run_wrap(w["input"]["text"].as_str()?, w["input"]["start"].as_u64()? as usize, w["input"]["end"].as_u64()? as usize)),
         "c19_col" => Some(c19::run_col(w["input"]["text"].as_str()?, w["input"]["byte"].as_u64()? as usize)),
         "c19_line" => Some(c19::run_line(w["input"]["text"].as_str()?, w["input"]["byte"].as_u64()? as usize)),
         _ => None,
@@ -57,7 +61,7 @@ fn search(unit: &str, tag: &str, tier: &str) -> Option<Value> {
     match unit {
         "c19_queries" | "c19_cols" | "c19_wrap" => c19::search(tag, tier),
         "c02_weakly" => c02::search(tag, tier),
-        "c04_pager" | "c02_itemset" => c04::search(tag, tier).or_else(|| c02::search(tag, tier)),
+        "c04_pager" | "c02_itemset" => if tag.starts_with("C15") { c15::search(tag, tier) } else { c04::search(tag, tier).or_else(|| c02::search(tag, tier)) },
         "c07_lr" => c07::search(tag, tier),
         "c06_moves" | "c06_dijkstra" | "c06_cpct" | "c06_rank" | "c05_apply" => c06::search(tag, tier).or_else(|| c07::search(tag, tier)),
         "c12_header" => c12::search(tag, tier),
@@ -67,6 +71,7 @@ fn search(unit: &str, tag: &str, tier: &str) -> Option<Value> {
         "c11_decl" if tag.starts_with("C12") => c12::search_lex(tier),
         "c08_reduce" => c08::search(tag, tier),
         "c11_decl" | "c11_lex" | "c09_lexer" => c11::search(tag, tier),
+        "c15_cache" => c15::search_codegen(tier),
         "c10_grammar" | "c10_validate" => if tag.starts_with("C15") { c15::search(tag, tier) } else { c10::search(tag, tier) },
         "c03_expect" => c03::search(tag, tier),
         "c03_resolve" | "c03_prodprec" => c03r::search(tag, tier),
